@@ -11,4 +11,5 @@ define(globals(), "write_anylen", "runtime", F, "verif_write_anylen", "write_any
        ["foreign grow() obeys the documented DiplomatWrite safety invariant (modelled nondeterministically, slack 0..2)",
         "buffers are zero-initialised symbolic-size allocations with one symbolic byte written at a symbolic index (so every position is covered)",
         "CBMC allocator model; len + chunk length cannot overflow usize within the 2^40 bound"],
-       {"C12": [], "C15": []})
+       {"C12": [], "C15": []},
+       quick_elsewhere={"C15": "C12"})
